@@ -3,7 +3,7 @@ from treeshapes import rbt_shapes
 
 PROPERTY = {
     "level": "proof",
-    "explanation": "the real insert / remove / lookup code run on EVERY valid red-black tree of depth <= 3 (<= 7 nodes; one unit per tree shape, colours/keys/positions symbolic; a deterministic sample (every 6th) of the depth-4 shapes = up to 15 nodes in the thorough tier; VERIF_FULL_D4=1 runs all of them, ~3 h), every key position (new or resident) and every node to remove; the result is judged by a recursive checker over the actual links (search order, parent links, black root, no red node with a red child, equal black heights) and by node count + lookups (element set)",
+    "explanation": "the real insert / remove / lookup code run on EVERY valid red-black tree of depth <= 3 (<= 7 nodes; one unit per tree shape, colours/keys/positions symbolic; a deterministic sample (every 16th) of the depth-4 shapes = up to 15 nodes in the thorough tier; VERIF_FULL_D4=1 runs all of them, ~3 h), every key position (new or resident) and every node to remove; the result is judged by a recursive checker over the actual links (search order, parent links, black root, no red node with a red child, equal black heights) and by node count + lookups (element set)",
     "trusted_base": ["cbmc 6.11.0 (SAT back end CaDiCaL)"],
     "assumptions": [
         "induction over histories: every operation is verified from every valid tree of the bounded depth; UNBOUNDED part: rbt_lemma_insert_step / rbt_lemma_remove_step prove the inductive step of the two fix-up loops (a_rbt_insert_adjust, a_rbt_remove_adjust; all cases and mirrors, packed layout) on windows with ghost black heights up to 2^20, using the loop-head hooks of src/rbt.c: every terminating path restores a valid tree with the old black height, the continuing path re-establishes the loop invariant one level up; the induction over the climb loop is a paper step. Descent, the three unlink cases of a_rbt_remove and the decision whether to call the fix-up are decided only on the bounded whole trees",
@@ -33,18 +33,18 @@ UNITS += [
       defines=["LEMMA_INSERT"], cbmc=["--object-bits", "10"], solver="cadical", timeout=1200, key=["insert_adjust step \\(done\\)", "insert_adjust step \\(continue\\)"]),
     U("rbt_lemma_unlink", "rbt_lemma.c", "h_unlink", level="L", functions=["a_rbt_remove", "a_rbt_new_child", "a_rbt_set_parent", "a_rbt_set_parent_color"], min_obl=5, unwind=9,
       replay={"prog": "trees_search.c", "sources": ["avl.c", "rbt.c"], "mode": "rbt", "timeout": 600}, bound="successor at most 2 levels down the left spine of the right child (subtree sizes unbounded)",
-      defines=["LEMMA_UNLINK", "MAXDEPTH=2"], mem_gb=24, cbmc=["--object-bits", "10"], solver="cadical", timeout=1200, key=["remove \\(no fix-up needed\\)", "fix-up loop's invariant"]),
+      defines=["LEMMA_UNLINK", "MAXDEPTH=2"], mem_gb=24, mem_est=14, cbmc=["--object-bits", "10"], solver="cadical", timeout=1200, key=["remove \\(no fix-up needed\\)", "fix-up loop's invariant"]),
     U("rbt_packed_accessors", "trees.c", "h_packed", level="P", functions=["a_rbt_set_parent_color", "a_rbt_set_parent", "a_rbt_set_black", "a_rbt_parent", "a_rbt_color", "a_rbt_init"], replay=RP, min_obl=3, defines=["TREE_RBT", "D=2"], cbmc=["--object-bits", "10"]),
-    T("rbt_insert_d2_packed", "h_insert", 2, tiers=("thorough",), functions=INS, timeout=1800, cost=100, mem_gb=40),
-    T("rbt_remove_d2_packed", "h_remove", 2, tiers=("thorough",), functions=REM, timeout=1800, cost=100, mem_gb=40),
+    T("rbt_insert_d2_packed", "h_insert", 2, tiers=("thorough",), functions=INS, timeout=1800, cost=100, mem_gb=40, mem_est=30),
+    T("rbt_remove_d2_packed", "h_remove", 2, tiers=("thorough",), functions=REM, timeout=1800, cost=100, mem_gb=40, mem_est=30),
 ]
 # depth-4 shapes: one unit takes 3-5 min, all 365 of them ~3 h on 16 cores.  The registered thorough tier runs a deterministic
-# sample (every 6th shape in enumeration order, ~35 min); VERIF_FULL_D4=1 selects all of them.
+# sample (every 16th shape in enumeration order; a unit needs 5-8 GB, so only a few run at once: ~1 h); VERIF_FULL_D4=1 selects all of them.
 import os
 _d4 = [m for m in rbt_shapes(4) if m >= 0x80]  # depth <= 3 shapes are covered above
 if not os.environ.get("VERIF_FULL_D4"):
-    _d4 = _d4[::6]
+    _d4 = _d4[::16]
 for m in _d4:
     b = "red-black tree shape (colours symbolic) 0x%04x of depth 4 (<= 15 nodes), keys and positions symbolic" % m
-    UNITS.append(T("rbt_insert_d4_s%04x" % m, "h_insert", 4, tiers=("thorough",), defs=["A_SIZE_POINTER=1", "SHAPE=0x%x" % m], functions=INS, bound=b, timeout=1200))
-    UNITS.append(T("rbt_remove_d4_s%04x" % m, "h_remove", 4, tiers=("thorough",), defs=["A_SIZE_POINTER=1", "SHAPE=0x%x" % m], functions=REM, bound=b, timeout=1200))
+    UNITS.append(T("rbt_insert_d4_s%04x" % m, "h_insert", 4, tiers=("thorough",), defs=["A_SIZE_POINTER=1", "SHAPE=0x%x" % m], functions=INS, bound=b, timeout=1200, mem_est=9))
+    UNITS.append(T("rbt_remove_d4_s%04x" % m, "h_remove", 4, tiers=("thorough",), defs=["A_SIZE_POINTER=1", "SHAPE=0x%x" % m], functions=REM, bound=b, timeout=1200, mem_est=9))
